@@ -49,8 +49,14 @@ func runC09(c *vk.Ctx) {
 		durs := ik.GetLockableDurations(ch.Ctx)
 		// a priced reward denom: balancer pool uosmo/rwd + protorev route
 		rwdPrice := []int64{1, 3, 1000}[r.Intn(3)]
+		rwdReserve := sdkmath.NewIntWithDecimal(1, 15).MulRaw(rwdPrice)
+		if r.Intn(5) == 0 {
+			// a precious reward denom: one uosmo buys a thousandth (or less) of one unit of it
+			rwdPrice = 0
+			rwdReserve = sdkmath.NewIntWithDecimal(1, 12-r.Intn(4))
+		}
 		msg := balancer.NewMsgCreateBalancerPool(funder.Addr, balancer.NewPoolParams(osmomath.ZeroDec(), osmomath.ZeroDec(), nil),
-			[]balancer.PoolAsset{{Weight: sdkmath.NewInt(1), Token: sdk.NewCoin("uosmo", sdkmath.NewIntWithDecimal(1, 15))}, {Weight: sdkmath.NewInt(1), Token: sdk.NewCoin("rwd", sdkmath.NewIntWithDecimal(1, 15).MulRaw(rwdPrice))}}, "")
+			[]balancer.PoolAsset{{Weight: sdkmath.NewInt(1), Token: sdk.NewCoin("uosmo", sdkmath.NewIntWithDecimal(1, 15))}, {Weight: sdkmath.NewInt(1), Token: sdk.NewCoin("rwd", rwdReserve)}}, "")
 		if res := ch.Exec(&msg); !res.OK() {
 			c.Violate("C09.setup", nil, "price pool: %s", res.ErrString())
 			return
@@ -201,7 +207,7 @@ func runC09(c *vk.Ctx) {
 			spamByGauge := map[uint64]sdk.Coins{}
 			minVal := ik.GetParams(ctx).MinValueForDistribution
 			var nLockGauges, nQual int
-			anyOtherReceiver, anySkippedMin, anyFinishing, anyNoLocks, anySpamRule := false, false, false, false, false
+			anyOtherReceiver, anySkippedMin, anyFinishing, anyNoLocks, anySpamRule, anyPrecious := false, false, false, false, false, false
 			cand := append(ik.GetActiveGauges(ctx), ik.GetUpcomingGauges(ctx)...)
 			sort.Slice(cand, func(a, b int) bool { return cand[a].Id < cand[b].Id })
 			for _, g := range cand {
@@ -282,7 +288,11 @@ func runC09(c *vk.Ctx) {
 								continue
 							}
 							need, err := sm.CalcOutAmtGivenIn(ctx, pl, minVal, coin.Denom, osmomath.ZeroDec())
-							if err != nil || amt.Cmp(need.Amount.BigInt()) < 0 {
+							if err != nil {
+								// the minimum value buys less than one unit of this denom: every whole unit of it is
+								// worth more than the minimum, so nothing is skipped on value grounds
+								anyPrecious = true
+							} else if amt.Cmp(need.Amount.BigInt()) < 0 {
 								anySkippedMin = true
 								continue
 							}
@@ -396,7 +406,7 @@ func runC09(c *vk.Ctx) {
 				c.Violate("C09.module_balance", sigBase(), "epoch %d: incentives module holds %s, undistributed remainder of unfinished gauges is %s", info.CurrentEpoch, bal, need)
 				return
 			}
-			c.Class("g%d|locks%d|otherRcv%v|skipMin%v|finishing%v|noLocks%v|spam%v", bucket(nLockGauges), bucket(nQual), anyOtherReceiver, anySkippedMin, anyFinishing, anyNoLocks, anySpamRule)
+			c.Class("g%d|locks%d|otherRcv%v|skipMin%v|finishing%v|noLocks%v|spam%v|precious%v", bucket(nLockGauges), bucket(nQual), anyOtherReceiver, anySkippedMin, anyFinishing, anyNoLocks, anySpamRule, anyPrecious)
 			doOps(2 + r.Intn(8))
 		}
 		if i < 2 {
